@@ -47,31 +47,11 @@ struct ConnSpec { unsigned id; double sx, sy, dx, dy; };
 
 static LPt toL(double x, double y) { return LPt{(i64) llround(x * 64), (i64) llround(y * 64)}; }
 
-// one case: inputs, libavoid run, oracle certificate
-static void runCase(long k, const std::string &tag, const vs::Scene &s, const std::vector<ConnSpec> &cs, bool lee, double penalty, bool ignoreRegions) {
-    vh::beginCase(k, tag.c_str());
-    printf("cfg lee %d penalty %s ignoreRegions %d\n", (int) lee, vh::hx(penalty).c_str(), (int) ignoreRegions);
-    for (size_t i = 0; i < s.shapes.size(); ++i) vs::printShape((unsigned) (i + 1), s.shapes[i]);
-    for (auto &c : cs) printf("conn %u %s %s %s %s\n", c.id, vh::hx(c.sx).c_str(), vh::hx(c.sy).c_str(), vh::hx(c.dx).c_str(), vh::hx(c.dy).c_str());
-    fflush(stdout);
-    // ---- libavoid
-    Router *router = new Router(PolyLineRouting);
-    router->UseLeesAlgorithm = lee;
-    router->IgnoreRegions = ignoreRegions;
-    router->setRoutingParameter(segmentPenalty, penalty);       // every other penalty is 0 by default
-    for (size_t i = 0; i < s.shapes.size(); ++i) { Polygon p = vs::toAvoid(s.shapes[i]); new ShapeRef(router, p, (unsigned) (i + 1)); }
-    std::vector<ConnRef *> crs;
-    for (auto &c : cs) crs.push_back(new ConnRef(router, ConnEnd(Point(c.sx, c.sy)), ConnEnd(Point(c.dx, c.dy)), c.id));
-    router->processTransaction();
-    for (size_t i = 0; i < crs.size(); ++i) {
-        vs::printPts("route", cs[i].id, crs[i]->route().ps);
-        vs::printPts("display", cs[i].id, crs[i]->displayRoute().ps);
-    }
-    delete router;
-    // ---- oracle (untrusted): exact visibility, Dijkstra in doubles
+// oracle (untrusted): exact visibility, Dijkstra in doubles, on the given (current) shapes
+static void emitOracle(const std::vector<vs::DPoly> &shapesNow, const std::vector<ConnSpec> &cs, double penalty) {
     std::vector<std::vector<LPt> > polys;
     std::vector<LPt> V; std::vector<Point> VD;
-    for (auto &p : s.shapes) { std::vector<LPt> q; for (auto &v : p) { q.push_back(toL(v.x, v.y)); V.push_back(q.back()); VD.push_back(v); } polys.push_back(q); }
+    for (auto &p : shapesNow) { std::vector<LPt> q; for (auto &v : p) { q.push_back(toL(v.x, v.y)); V.push_back(q.back()); VD.push_back(v); } polys.push_back(q); }
     size_t C = V.size(), N = C + 2;
     V.resize(N); VD.resize(N);
     auto visible = [&](size_t i, size_t j) {
@@ -134,7 +114,92 @@ static void runCase(long k, const std::string &tag, const vs::Scene &s, const st
         printf("\n");
         printf("oracle %u %s\n", c.id, vh::hx(best).c_str());
     }
+}
+
+// one case: inputs, libavoid run, oracle certificate
+static void runCase(long k, const std::string &tag, const vs::Scene &s, const std::vector<ConnSpec> &cs, bool lee, double penalty, bool ignoreRegions) {
+    vh::beginCase(k, tag.c_str());
+    printf("cfg lee %d penalty %s ignoreRegions %d\n", (int) lee, vh::hx(penalty).c_str(), (int) ignoreRegions);
+    for (size_t i = 0; i < s.shapes.size(); ++i) vs::printShape((unsigned) (i + 1), s.shapes[i]);
+    for (auto &c : cs) printf("conn %u %s %s %s %s\n", c.id, vh::hx(c.sx).c_str(), vh::hx(c.sy).c_str(), vh::hx(c.dx).c_str(), vh::hx(c.dy).c_str());
+    fflush(stdout);
+    // ---- libavoid
+    Router *router = new Router(PolyLineRouting);
+    router->UseLeesAlgorithm = lee;
+    router->IgnoreRegions = ignoreRegions;
+    router->setRoutingParameter(segmentPenalty, penalty);       // every other penalty is 0 by default
+    for (size_t i = 0; i < s.shapes.size(); ++i) { Polygon p = vs::toAvoid(s.shapes[i]); new ShapeRef(router, p, (unsigned) (i + 1)); }
+    std::vector<ConnRef *> crs;
+    for (auto &c : cs) crs.push_back(new ConnRef(router, ConnEnd(Point(c.sx, c.sy)), ConnEnd(Point(c.dx, c.dy)), c.id));
+    router->processTransaction();
+    for (size_t i = 0; i < crs.size(); ++i) {
+        vs::printPts("route", cs[i].id, crs[i]->route().ps);
+        vs::printPts("display", cs[i].id, crs[i]->displayRoute().ps);
+    }
+    delete router;
+    emitOracle(s.shapes, cs, penalty);
     vh::endCase();
+}
+
+// ---- edit histories: the router stays alive over several transactions; one obstacle is deleted or moved
+//      per transaction, and after EVERY transaction the routes are dumped together with an oracle
+//      certificate for the *current* scene.  Each transaction is its own case (index kbase + step), so the
+//      driver judges a snapshot exactly like a static scene; `--only K` re-runs the history up to that step.
+struct EditOp { int kind; size_t shape; double dx, dy; };      // kind 0 = deleteShape, 1 = moveShape(dx, dy)
+
+static void runHistory(const vh::Args &a, long kbase, const std::string &tag, const vs::Scene &s0, const std::vector<ConnSpec> &cs,
+                       bool lee, double penalty, bool ignoreRegions, bool invis, const std::vector<EditOp> &ops) {
+    long last = kbase + (long) ops.size();
+    if (a.only >= 0 && (a.only < kbase || a.only > last)) return;
+    std::vector<vs::DPoly> cur = s0.shapes;
+    std::vector<char> alive(cur.size(), 1);
+    Router *router = new Router(PolyLineRouting);
+    router->UseLeesAlgorithm = lee;
+    router->IgnoreRegions = ignoreRegions;
+    router->InvisibilityGrph = invis;
+    router->setRoutingParameter(segmentPenalty, penalty);
+    std::vector<ShapeRef *> refs;
+    for (size_t i = 0; i < cur.size(); ++i) { Polygon p = vs::toAvoid(cur[i]); refs.push_back(new ShapeRef(router, p, (unsigned) (i + 1))); }
+    std::vector<ConnRef *> crs;
+    for (auto &c : cs) crs.push_back(new ConnRef(router, ConnEnd(Point(c.sx, c.sy)), ConnEnd(Point(c.dx, c.dy)), c.id));
+    std::string histLine;
+    for (size_t step = 0; step <= ops.size(); ++step) {
+        long k = kbase + (long) step;
+        if (step > 0) {
+            const EditOp &op = ops[step - 1];
+            char buf[160];
+            if (op.kind == 0) { snprintf(buf, sizeof buf, " | delete %zu", op.shape + 1); alive[op.shape] = 0; }
+            else { snprintf(buf, sizeof buf, " | move %zu %s %s", op.shape + 1, vh::hx(op.dx).c_str(), vh::hx(op.dy).c_str());
+                   for (auto &v : cur[op.shape]) { v.x += op.dx; v.y += op.dy; } }
+            histLine += buf;
+        }
+        bool emit = a.want(k);
+        std::vector<vs::DPoly> now;
+        for (size_t i = 0; i < cur.size(); ++i) if (alive[i]) now.push_back(cur[i]);
+        if (emit) {     // inputs of this snapshot first
+            vh::beginCase(k, tag.c_str());
+            printf("cfg lee %d penalty %s ignoreRegions %d invis %d\n", (int) lee, vh::hx(penalty).c_str(), (int) ignoreRegions, (int) invis);
+            printf("hist step %zu of %zu : initial%s\n", step, ops.size(), histLine.c_str());
+            for (size_t i = 0; i < cur.size(); ++i) if (alive[i]) vs::printShape((unsigned) (i + 1), cur[i]);
+            for (auto &c : cs) printf("conn %u %s %s %s %s\n", c.id, vh::hx(c.sx).c_str(), vh::hx(c.sy).c_str(), vh::hx(c.dx).c_str(), vh::hx(c.dy).c_str());
+            fflush(stdout);
+        }
+        if (step > 0) {
+            const EditOp &op = ops[step - 1];
+            if (op.kind == 0) router->deleteShape(refs[op.shape]);
+            else router->moveShape(refs[op.shape], op.dx, op.dy);
+        }
+        router->processTransaction();
+        if (emit) {
+            for (size_t i = 0; i < crs.size(); ++i) {
+                vs::printPts("route", cs[i].id, crs[i]->route().ps);
+                vs::printPts("display", cs[i].id, crs[i]->displayRoute().ps);
+            }
+            emitOracle(now, cs, penalty);
+            vh::endCase();
+        }
+    }
+    delete router;
 }
 
 int main(int argc, char **argv) {
@@ -259,6 +324,110 @@ int main(int argc, char **argv) {
         if (r.coin()) { std::swap(cn.sx, cn.dx); std::swap(cn.sy, cn.dy); }
         std::vector<ConnSpec> cs; cs.push_back(cn);
         runCase(k, "fractional-onebox", s, cs, true, pen, r.coin(3, 4));
+    }
+    // ---- edit-history classes.  Every history reserves HSLOT case indices (one per transaction).
+    const long HSLOT = 6;
+    long nhA = (thorough ? 100 : 28) * a.scale, nhB = (thorough ? 60 : 14) * a.scale;
+    // family A ("edit-history"): source and target on a line; 2..3 blockers across that line and 1..3
+    // bystanders beside it, every shape in its own slot along the line; the blockers are taken out of the
+    // way one per transaction (deleted, moved far away, or moved aside), in random order.
+    for (long h = 0; h < nhA; ++h, k += HSLOT) {
+        if (a.only >= 0 && (a.only < k || a.only >= k + HSLOT)) continue;
+        vh::Rng r = vh::caseRng(a.seed, k, 17);
+        bool generic = r.coin(1, 2);
+        double penalty = std::vector<double>{0, 0, 0, 5, 50, 1.5}[r.range(0, 5)];
+        bool invis = r.coin(5, 6), ignoreRegions = r.coin(4, 5);
+        int nBlock = (int) r.range(2, 3), nBy = (int) r.range(1, 3);
+        std::vector<int> role; for (int i = 0; i < nBlock; ++i) role.push_back(1); for (int i = 0; i < nBy; ++i) role.push_back(0);
+        r.shuffle(role);
+        auto J = [&]() { return generic ? r.range(-15, 15) / 64.0 : 0.0; };
+        struct Box { double x0, y0, x1, y1; };
+        std::vector<Box> boxes; std::vector<size_t> blockers;
+        double x = (double) r.range(4, 12);
+        for (size_t i = 0; i < role.size(); ++i) {
+            double w = (double) r.range(6, 20);
+            Box b; b.x0 = x + J(); b.x1 = x + w + J();
+            if (role[i]) { b.y0 = -(double) r.range(3, 30) + J(); b.y1 = (double) r.range(3, 30) + J(); blockers.push_back(i); }
+            else { double c0 = (double) r.range(4, 40), hh = (double) r.range(4, 30); if (r.coin()) { b.y0 = c0 + J(); b.y1 = c0 + hh + J(); } else { b.y1 = -c0 + J(); b.y0 = -c0 - hh + J(); } }
+            boxes.push_back(b);
+            x += w + (double) r.range(2, 15);
+        }
+        double L = x + (double) r.range(2, 10);
+        bool mx = r.coin(), my = r.coin(), tr = r.coin();
+        auto X = [&](double px, double py, double &ox, double &oy) { if (mx) px = L - px; if (my) py = -py; if (tr) std::swap(px, py); ox = px; oy = py; };
+        vs::Scene s; s.W = (long) L; s.H = 100;
+        for (auto &b : boxes) {
+            double ax, ay, bx, by; X(b.x0, b.y0, ax, ay); X(b.x1, b.y1, bx, by);
+            double lx = std::min(ax, bx), hx = std::max(ax, bx), ly = std::min(ay, by), hy = std::max(ay, by);
+            vs::DPoly q; q.push_back(Point(hx, ly)); q.push_back(Point(hx, hy)); q.push_back(Point(lx, hy)); q.push_back(Point(lx, ly));
+            s.shapes.push_back(q); s.isRect.push_back(true);
+        }
+        ConnSpec cn; cn.id = 101; X(0, J() / 2, cn.sx, cn.sy); X(L, J() / 2, cn.dx, cn.dy);
+        if (r.coin()) { std::swap(cn.sx, cn.dx); std::swap(cn.sy, cn.dy); }
+        std::vector<ConnSpec> cs; cs.push_back(cn);
+        // operations: each blocker leaves the line, one per transaction
+        r.shuffle(blockers);
+        std::vector<EditOp> ops;
+        for (size_t q = 0; q < blockers.size(); ++q) {
+            size_t bi = blockers[q]; const Box &b = boxes[bi];
+            int how = (int) r.range(0, 2);
+            EditOp op; op.shape = bi; op.dx = 0; op.dy = 0;
+            if (how == 0) op.kind = 0;
+            else {
+                op.kind = 1;
+                double py = (how == 1) ? (double) (1000 + 500 * (long) q) * (r.coin() ? 1 : -1)             // far away
+                                       : (r.coin() ? (-b.y0 + (double) r.range(1, 10)) : (-b.y1 - (double) r.range(1, 10)));   // just aside
+                double ox, oy; double zx, zy; X(0, py, ox, oy); X(0, 0, zx, zy); op.dx = ox - zx; op.dy = oy - zy;
+            }
+            ops.push_back(op);
+        }
+        if (nBy >= 2 && r.coin(1, 3)) {     // finally remove one bystander too
+            for (size_t i = 0; i < role.size(); ++i) if (!role[i]) { EditOp op; op.kind = 0; op.shape = i; op.dx = op.dy = 0; ops.push_back(op); break; }
+        }
+        runHistory(a, k, penalty > 0 ? "edit-history-pen" : "edit-history", s, cs, true, penalty, ignoreRegions, invis, ops);
+    }
+    // family B ("edit-history-random"): separated grid scenes (integer or jittered), 1..3 connectors; 2..4
+    // transactions each deleting or moving far away one remaining shape, preferably one that crosses the
+    // straight line of a connector.
+    for (long h = 0; h < nhB; ++h, k += HSLOT) {
+        if (a.only >= 0 && (a.only < k || a.only >= k + HSLOT)) continue;
+        vh::Rng r = vh::caseRng(a.seed, k, 19);
+        bool generic = r.coin(1, 2);
+        double penalty = std::vector<double>{0, 0, 0, 5, 50}[r.range(0, 4)];
+        bool invis = r.coin(5, 6), ignoreRegions = r.coin(4, 5);
+        vs::SceneOpts so; so.nShapesMin = 3; so.nShapesMax = thorough ? 10 : 7; so.margin = 1; so.rectPct = 60; so.jitter = generic;
+        vs::Scene s = vs::genScene(r, so);
+        std::vector<vs::DPoly> rp = vs::routingPolys(s, 0);
+        std::vector<ConnSpec> cs;
+        int nconn = (int) r.range(1, 3);
+        for (int i = 0; i < nconn; ++i) {
+            ConnSpec c; c.id = 101 + i; double clear = generic ? 0.25 : 0.0;
+            if (!vs::freePoint(r, s, rp, clear, c.sx, c.sy, false) || !vs::freePoint(r, s, rp, clear, c.dx, c.dy, false)) continue;
+            if (generic) { c.sx += r.range(-7, 7) / 64.0; c.sy += r.range(-7, 7) / 64.0; c.dx += r.range(-7, 7) / 64.0; c.dy += r.range(-7, 7) / 64.0; }
+            if (c.sx == c.dx && c.sy == c.dy) continue;
+            cs.push_back(c);
+        }
+        if (cs.empty() || s.shapes.size() < 3) continue;
+        std::vector<char> gone(s.shapes.size(), 0);
+        std::vector<EditOp> ops;
+        int nops = (int) r.range(2, 4);
+        for (int q = 0; q < nops; ++q) {
+            std::vector<size_t> rem, crossing;
+            for (size_t i = 0; i < s.shapes.size(); ++i) if (!gone[i]) {
+                rem.push_back(i);
+                std::vector<LPt> poly; for (auto &v : s.shapes[i]) poly.push_back(toL(v.x, v.y));
+                for (auto &c : cs) if (segHitsInteriorL(poly, toL(c.sx, c.sy), toL(c.dx, c.dy))) { crossing.push_back(i); break; }
+            }
+            if (rem.size() <= 1) break;
+            size_t pick = (!crossing.empty() && r.coin(3, 4)) ? r.pick(crossing) : r.pick(rem);
+            EditOp op; op.shape = pick; op.kind = (int) r.range(0, 1); op.dx = 0; op.dy = (op.kind == 1) ? (double) (1000 + 300 * q) : 0;
+            gone[pick] = 1;
+            ops.push_back(op);
+        }
+        bool degenerate = false;
+        { std::vector<Point> eps; for (auto &c : cs) { eps.push_back(Point(c.sx, c.sy)); eps.push_back(Point(c.dx, c.dy)); } degenerate = vs::hasCollinearTriple(rp, eps); }
+        std::string tag = std::string("edit-history-random") + (degenerate ? "-collinear" : "") + (penalty > 0 ? "-pen" : "");
+        runHistory(a, k, tag, s, cs, true, penalty, ignoreRegions, invis, ops);
     }
     return 0;
 }
